@@ -67,6 +67,7 @@ impl DetectProp for C04 {
     }
     fn extra(&self, rep: &mut Report, drv: &mut Driver, rng: &mut Rng, thorough: bool) {
         md::run_mess_t3(rep, drv, rng, if thorough { 6000 } else { 600 });
+        md::run_full_detect_t3(rep, drv, rng, if thorough { 800 } else { 80 });
     }
     fn oracle(&self, cx: &mut Ctx, case: &Case, raw: &RealRaw) {
         let s = &case.sett;
